@@ -129,7 +129,7 @@ def quadrature(n: int, a: float = -1.0, b: float = 1.0,
     if method in ["gl", "gauss-legendre"]:
         points, weights = np.polynomial.legendre.leggauss(n)
         points = points * 0.5 * (b - a) + 0.5 * (a + b)
-        weights *= 0.5
+        weights *= 0.5 * (b - a)
         return points, weights
     if method in ["midpoint", "mp"]:
         return midpoint(n, a, b)
